@@ -87,6 +87,32 @@ static float of_hex32(const std::string& s) {
 // C16: an oracle that wraps a libfive expression (every interface method is
 // answered by a private Evaluator of that expression)
 #include "libfive/oracle/oracle_storage.hpp"
+#include "libfive/render/brep/dc/dc_contourer.hpp"
+#include "libfive/render/brep/dc/dc_tree.hpp"
+// C10 (adaptive quadtrees): the contourer itself, with an Output that keeps the raw directed segments
+// (vertex index pairs as DCContourer::load pushed them) instead of welding them
+struct RawSegs {
+    std::vector<std::pair<uint32_t, uint32_t>> segs;
+    void collect(const std::vector<libfive::PerThreadBRep<2>>& breps) {
+        for (auto& b : breps) for (auto& s : b.branes) segs.push_back({s(0), s(1)});
+    }
+};
+class RawContourer : public libfive::DCContourer {
+public:
+    using Output = RawSegs;
+    RawContourer(libfive::PerThreadBRep<2>& m) : libfive::DCContourer(m) {}
+};
+static void dump_qtree(const libfive::DCTree<2>* t, std::ostringstream& o) {
+    if (t->isBranch()) {
+        o << " B";
+        for (unsigned i = 0; i < 4; ++i) dump_qtree(t->children[i].load(), o);
+    } else if (t->type == libfive::Interval::EMPTY) o << " E";
+    else if (t->type == libfive::Interval::FILLED) o << " F";
+    else if (t->type == libfive::Interval::AMBIGUOUS && t->leaf != nullptr) {
+        o << " A," << t->leaf->level << "," << (int)t->leaf->corner_mask << "," << (t->leaf->manifold ? 1 : 0)
+          << "," << t->leaf->vertex_count << "," << t->leaf->index[0] << "," << t->leaf->index[1];
+    } else o << " U";   // ambiguous without a leaf / unknown: not expected after build
+}
 #include "libfive/eval/evaluator.hpp"
 struct ExprOracleContext : public OracleContext {
     std::shared_ptr<Tape> tape;
@@ -1568,6 +1594,36 @@ int main(int argc, char** argv) {
                 for (auto& p3 : inside) o << " " << p3[0] << "," << p3[1] << "," << p3[2];
                 out(o.str());
                 root.reset(st);
+            }
+            else if (c == "quadtree") {
+                // quadtree h level lx ly ux uy z max_err : the quadtree the contourer walks (one worker), before
+                // (max_err = -1: nothing collapses) and after collapsing at max_err, with the raw directed segments
+                // of the dual walk over the collapsed tree -- for Render/QuadTree.v
+                Tree tr = H(t[1]);
+                int level = std::stoi(t[2]);
+                Eigen::Vector2d lo(of_hex32(t[3]), of_hex32(t[4])), hi(of_hex32(t[5]), of_hex32(t[6]));
+                float zz = of_hex32(t[7]);
+                float max_err = of_hex32(t[8]);
+                const Tree topt = tr.optimized();
+                std::ostringstream o;
+                o << "QT";
+                for (int pass = 0; pass < 2; ++pass) {
+                    BRepSettings st;
+                    st.workers = 1; st.max_err = pass == 0 ? -1.0f : max_err;
+                    st.min_feature = (hi - lo).minCoeff() / (1 << level) * 1.0001;
+                    Region<2> rg(lo, hi, Region<2>::Perp(zz));
+                    std::vector<Evaluator, Eigen::aligned_allocator<Evaluator>> es;
+                    es.reserve(1); es.emplace_back(Evaluator(topt));
+                    auto xtree = DCWorkerPool<2>::build(es.data(), rg, st);
+                    auto raw = Dual<2>::walk<RawContourer>(xtree, st);
+                    o << (pass == 0 ? " level=" + std::to_string(xtree.get()->region.level) + " pre=" : " post=");
+                    dump_qtree(xtree.get(), o);
+                    if (pass == 1) {
+                        o << " segs=";
+                        for (auto& sg : raw->segs) o << " " << sg.first << ">" << sg.second;
+                    }
+                }
+                out(o.str());
             }
             else if (c == "contourgrid") {
                 // contourgrid h level lx ly ux uy z workers : the 2D analogue, for Render/DCGrid2.v
